@@ -1661,11 +1661,12 @@ func (ex *Exec) recordCapture(fr *Frame, st *State, site ssa.Instruction, args, 
 			}
 		}
 		if ci := fr.capSites[cp]; ci != nil && ci.(ssa.Instruction) == site {
-			rec := &capRec{called: st.reach, args: args, rets: rets, sig: sig, pre: pre}
+			ex.capSeq++
+			rec := &capRec{seq: ex.capSeq, called: st.reach, args: args, rets: rets, sig: sig, pre: pre}
 			if old := fr.captures[cp.Name]; old != nil && old.called != st.reach && len(old.args) == len(args) && len(old.rets) == len(rets) {
 				// the site ran before on another path (an inlined closure invoked from several
 				// places): the latest execution wins where it ran, the earlier one elsewhere
-				rec = &capRec{called: Or(old.called, st.reach), sig: sig}
+				rec = &capRec{seq: ex.capSeq, called: Or(old.called, st.reach), sig: sig}
 				if old.pre != nil && pre != nil {
 					// the two pre-states carry their own reach conditions: merge picks by them
 					rec.pre = ex.mergeStates([]*State{old.pre, pre})
@@ -1721,6 +1722,10 @@ func (ex *Exec) bindCaptures(fr *Frame, env *SpecEnv, sc *specScope, reachNow *T
 			env.capPre = map[string]*State{}
 		}
 		env.capPre[cp.Name+"_called"] = rec.pre
+		if env.capSeq == nil {
+			env.capSeq = map[string]int{}
+		}
+		env.capSeq[cp.Name+"_called"] = rec.seq
 		args := rec.args
 		if c.IsInvoke() || sig.Recv() != nil {
 			if len(args) > 0 {
